@@ -251,6 +251,19 @@ class C20(Prop):
                 ops.append("intr f=%s w=%d a=%s b=%s" % (f, w, rb(nb), rb(nb)))
             for f, nb in (("_mm_movemask_epi8", 16), ("_mm256_movemask_epi8", 32)):
                 for _ in range(3): ops.append("intr f=%s w=%d a=%s" % (f, w, rb(nb)))
+        # scalar extractions (cut to the lane width of the helper's view), stores, constants, casts
+        for w in (8, 16):
+            for k in range(8): ops.append("intr f=_mm_extract_epi16 w=%d imm=%d a=%s" % (w, k, rb(16)))
+            for k in sorted(set([0, 15] + rng.sample(range(16), 5))): ops.append("intr f=_mm256_extract_epi16 w=%d imm=%d a=%s" % (w, k, rb(32)))
+        for k in sorted(set([0, 31] + rng.sample(range(32), 8))): ops.append("intr f=_mm256_extract_epi8 w=8 imm=%d a=%s" % (k, rb(32)))
+        for w in (8, 16, 32):
+            for _ in range(2): ops.append("intr f=_mm_cvtsi128_si32 w=%d a=%s" % (w, rb(16)))
+            for k in range(8): ops.append("intr f=_mm256_extract_epi32 w=%d imm=%d a=%s" % (w, k, rb(32)))
+        for _ in range(3):
+            ops.append("intr f=_mm_store_ss w=32 a=%s" % rf(16))
+            ops.append("intr f=_mm_set1_ps w=32 a=%s" % rf(16)); ops.append("intr f=_mm_set1_epi32 w=32 a=%s" % rb(16))
+            ops.append("intr f=_mm_castps_si128 w=32 a=%s" % rf(16)); ops.append("intr f=_mm_castsi128_ps w=32 a=%s" % rb(16))
+        ops.append("intr f=_mm_setzero_ps w=32 a=%s" % rb(16)); ops.append("intr f=_mm_setzero_si128 w=32 a=%s" % rb(16))
         for imm in imms(10):
             ops.append("intr f=_mm_shuffle_ps w=32 imm=%d a=%s b=%s" % (imm, rb(16), rb(16)))
             ops.append("intr f=_mm512_shuffle_ps w=32 imm=%d a=%s b=%s" % (imm, rb(64), rb(64)))
@@ -1131,8 +1144,12 @@ class C20(Prop):
         return None if d <= 4 else "%s(%08x = %r) = %08x is %d ulp from libm's %08x" % (f, xin, xf, got, d, lib)
 
     def monitor(self, ctx, case, out):
+        tally = self.__dict__.setdefault("_intr_tally", {})
         for op, l in zip(case["ops"], out):
             name, kvs = kv(op)
+            if name in ("intr", "lane32"):
+                t = tally.setdefault(kvs.get("f", "?"), [0, 0])
+                t[0 if l.startswith("ok") else 1] += 1
             if l.startswith(("fault", "atexit")):
                 if l.startswith("fault") and "signed_integer_overflow" in l and self.expected_fault(op): continue
                 return Failure("fault", "implementation died: %s  [%s]" % (l[:200], op[:120]))
@@ -1206,8 +1223,28 @@ class C20(Prop):
         return all(math.isfinite(v) or v == -math.inf for v in x)
 
     # ------------------------------------------------------------------------------------------ exhaustive tier
+    def intrinsic_coverage(self, ctx):
+        """every intrinsic applied by a translated function must have a hardware-validation op (`intr` / `lane32`) in this run's cases"""
+        import random, simd2lean
+        class Shim: pass
+        sh = Shim(); sh.rng = random.Random(12345); sh.tier = ctx.tier
+        have = set()
+        for c in self.intr_cases(sh):
+            for op in c["ops"]:
+                have.add(kv(op)[1].get("f", ""))
+        used = {}
+        for i in getattr(self, "_infos", []):
+            for f in i.get("intrinsics", []): used.setdefault(f, []).append(i["name"])
+        for fn, fs in getattr(simd2lean, "USED_LANE", {}).items():
+            for f in fs:
+                if f.startswith("_mm"): used.setdefault(f, []).append(fn)
+        self._intr_used = {f: sorted(set(v)) for f, v in sorted(used.items())}
+        self._intr_have = sorted(have)
+        return [Failure("obligation", "intrinsic %s (used by %s) has no hardware validation op in the quick tier: its entry of the semantics table is unchecked"
+                        % (f, ", ".join(v[:4])), key="intr-coverage:" + f) for f, v in self._intr_used.items() if f not in have]
+
     def extra_checks(self, ctx):
-        fails = []
+        fails = list(self.intrinsic_coverage(ctx))
         if ctx.tier != "thorough" or not ctx.harness_exe:
             return fails
         import concurrent.futures
@@ -1243,7 +1280,13 @@ class C20(Prop):
         return fails
 
     def extra_evidence(self, ctx):
+        tally = getattr(self, "_intr_tally", {})
+        used = getattr(self, "_intr_used", {})
         return {"input_distribution": getattr(self, "_dist", {}),
+                "intrinsics_used_by_translated_functions": used,
+                "intrinsics_validated_on_hardware_this_run": {f: {"ops_answered_ok_and_equal_to_the_table": tally.get(f, [0, 0])[0],
+                                                                  "ops_unsupported_on_this_cpu": tally.get(f, [0, 0])[1]} for f in sorted(used)},
+                "intrinsic_validation_ops_also_run": sorted(set(tally) - set(used)),
                 "translated_helpers": [i["name"] for i in getattr(self, "_infos", [])],
                 "support_only": "logf/expf accuracy vs libm is a measurement (quick: stratified sample; thorough: exhaustive 2^32 x 4 lanes), not a theorem"}
 
